@@ -121,4 +121,7 @@ MUTANTS += [
  {"id": "revert-F-W5", "props": ["C10"], "edits": [("pymtl3/passes/rtlir/behavioral/BehavioralRTLIRTypeCheckL2Pass.py", "          target_nbits = lhs_nbits\n          op = node.orelse\n        else:\n          target_nbits = rhs_nbits\n          op = node.body\n", "          target_nbits = lhs_nbits\n          op = node.body\n        else:\n          target_nbits = rhs_nbits\n          op = node.orelse\n")]},
  {"id": "revert-F-S2", "props": ["C02"], "edits": [("pymtl3/passes/sim/GenDAGPass.py", "      for z in ( equiv[v] if v in equiv else (v,) ):", "      for z in (v,):")]},
  {"id": "revert-F-W8", "props": ["C10"], "edits": [("pymtl3/passes/rtlir/behavioral/BehavioralRTLIRTypeCheckL2Pass.py", "    lhs_is_vector = isinstance(lhs_dtype, (rdt.Vector, rdt.Bool))\n    rhs_is_vector = isinstance(rhs_dtype, (rdt.Vector, rdt.Bool))", "    lhs_is_vector = isinstance(lhs_dtype, rdt.Vector)\n    rhs_is_vector = isinstance(rhs_dtype, rdt.Vector)")]},
+ {"id": "revert-F-D3", "props": ["C09"], "edits": [("pymtl3/dsl/ComponentLevel3.py", "    for blk, writes in s._dsl.all_upblk_writes.items():\n      for obj in writes:\n        writer_prop[ obj ] = True # propagatable\n", ""),
+    ("pymtl3/dsl/ComponentLevel3.py", "      for obj in writes:\n        obj = obj.get_parent_object()\n        while obj.is_signal():", "      for obj in writes:\n        writer_prop[ obj ] = True # propagatable\n        obj = obj.get_parent_object()\n        while obj.is_signal():")]},
+ {"id": "revert-F-D3b", "props": ["C09"], "edits": [("pymtl3/dsl/ComponentLevel3.py", "                    assert not has_writer or writer is v", "                    assert not has_writer")]},
 ]
